@@ -59,12 +59,14 @@ func (c *basicCatalog) add(sst SharedSymbolTable) {
 
 // FindExact attempts to find a shared symbol table with the given name and version.
 func (c *basicCatalog) FindExact(name string, version int) SharedSymbolTable {
+	verifYield("catalog.FindExact", c)
 	key := fmt.Sprintf("%v/%v", name, version)
 	return c.ssts[key]
 }
 
 // FindLatest finds the shared symbol table with the given name and largest version.
 func (c *basicCatalog) FindLatest(name string) SharedSymbolTable {
+	verifYield("catalog.FindLatest", c)
 	return c.latest[name]
 }
 
